@@ -168,4 +168,91 @@ theorem syncRawPrefixSend_regenerated_from_source (key : String) (data : Data) (
     syncRawPrefixSend_regenerated_from_source_loop key data out out data [] hm (by simp)]
   simp [sendSyncRawPrefix]
 
+/-! ### The getters of `pkg/cluster/op.go` below `syncer.pull`: each is ONE `client.Get` -/
+
+/-- An etcd range response lists every key once. -/
+def RespWF : EtcdResp → Prop
+  | .error => True
+  | .kvs l => (l.map KV.key).Nodup
+
+theorem getRaw_regenerated_from_source (cl : Bool → String → EtcdResp) (gc : Bool) (key : String) :
+    getRawIR cl gc key = getRaw (respOf cl gc false key) := by
+  cases gc
+  · simp only [getRawIR, respOf, Bool.false_eq_true, ↓reduceIte]
+    cases cl false key with
+    | error => simp [getE, getRaw]
+    | kvs l => cases l <;> simp [getE, getRaw]
+  · simp [getRawIR, respOf, getRaw]
+
+/-- The loop of `GetRawPrefix` over ONE response's `Kvs` (distinct keys, none yet in `m`): appends
+`string(kv.Key) → kv` in order. -/
+theorem getRawPrefix_regenerated_from_source_loop (cl : Bool → String → EtcdResp) (gc : Bool) (key : String)
+    (client : Bool → String → EtcdResp) (e : Bool) (resp : List KV) :
+    ∀ (l : List KV) (m : Data), (l.map KV.key).Nodup → (∀ kv ∈ l, kv.key ∉ m.map Prod.fst) →
+      getRawPrefixIR_loop1 cl gc key m client e resp (l.map some) = .inr (m ++ l.map (fun kv => (kv.key, some kv)))
+  | [], m, _, _ => by simp [getRawPrefixIR_loop1]
+  | kv :: rest, m, hn, hd => by
+    simp only [List.map_cons, List.nodup_cons] at hn
+    have hk : kv.key ∉ m.map Prod.fst := hd kv (by simp)
+    have hset : mapSet m (kvKey (some kv)) (some kv) = m ++ [(kv.key, some kv)] := by
+      simp [mapSet, kvKey, lookup_isSome_false m kv.key hk]
+    have ih := getRawPrefix_regenerated_from_source_loop cl gc key client e resp rest (m ++ [(kv.key, some kv)]) hn.2 (by
+      intro kv' hk' hm
+      simp only [List.map_append, List.map_cons, List.map_nil, List.mem_append, List.mem_singleton] at hm
+      rcases hm with hm | heq
+      · exact hd kv' (List.mem_cons_of_mem _ hk') hm
+      · exact hn.1 (List.mem_map.mpr ⟨kv', hk', heq⟩))
+    simp only [List.map_cons, getRawPrefixIR_loop1, hset, ih, List.append_assoc, List.singleton_append]
+
+/-- `GetRawPrefix`: exactly one `client.Get(ctx, prefix, clientv3.WithPrefix())`; the result is that one
+response's key-values (so a pull of a prefix is ONE linearizable range read). -/
+theorem getRawPrefix_regenerated_from_source (cl : Bool → String → EtcdResp) (gc : Bool) (key : String)
+    (hwf : RespWF (cl true key)) : getRawPrefixIR cl gc key = getRawPrefix (respOf cl gc true key) := by
+  cases gc
+  · simp only [getRawPrefixIR, respOf, Bool.false_eq_true, ↓reduceIte]
+    cases hc : cl true key with
+    | error => simp [getE, getRawPrefix]
+    | kvs l =>
+      rw [hc] at hwf
+      simp only [getE, Bool.false_eq_true, ↓reduceIte, getRawPrefix]
+      rw [getRawPrefix_regenerated_from_source_loop cl false key cl false l l [] hwf (by simp)]
+      simp
+  · simp [getRawPrefixIR, respOf, getRawPrefix]
+
+theorem get_regenerated_from_source (cl : Bool → String → EtcdResp) (gc : Bool) (key : String) :
+    getIR cl gc key = get (respOf cl gc false key) := by
+  simp only [getIR, get]
+  rcases h : getRaw (respOf cl gc false key) with ⟨o, e⟩
+  cases e <;> cases o <;> simp [kvValue]
+
+theorem getPrefix_regenerated_from_source_loop (cl : Bool → String → EtcdResp) (gc : Bool) (key : String) (raw : Data) (e : Bool) :
+    ∀ (l : List KV) (m : List (String × String)), (l.map KV.key).Nodup → (∀ kv ∈ l, kv.key ∉ m.map Prod.fst) →
+      getPrefixIR_loop1 cl gc key m raw e (l.map (fun kv => (kv.key, some kv))) = .inr (m ++ l.map (fun kv => (kv.key, kv.value)))
+  | [], m, _, _ => by simp [getPrefixIR_loop1]
+  | kv :: rest, m, hn, hd => by
+    simp only [List.map_cons, List.nodup_cons] at hn
+    have hk : kv.key ∉ m.map Prod.fst := hd kv (by simp)
+    have hset : smapSet m (kvKey (some kv)) (kvValue (some kv)) = m ++ [(kv.key, kv.value)] := by
+      simp [smapSet, kvKey, kvValue, lookup_isSome_false m kv.key hk]
+    have ih := getPrefix_regenerated_from_source_loop cl gc key raw e rest (m ++ [(kv.key, kv.value)]) hn.2 (by
+      intro kv' hk' hm
+      simp only [List.map_append, List.map_cons, List.map_nil, List.mem_append, List.mem_singleton] at hm
+      rcases hm with hm | heq
+      · exact hd kv' (List.mem_cons_of_mem _ hk') hm
+      · exact hn.1 (List.mem_map.mpr ⟨kv', hk', heq⟩))
+    simp only [List.map_cons, getPrefixIR_loop1, hset, ih, List.append_assoc, List.singleton_append]
+
+theorem getPrefix_regenerated_from_source (cl : Bool → String → EtcdResp) (gc : Bool) (key : String)
+    (hwf : RespWF (cl true key)) : getPrefixIR cl gc key = getPrefix (respOf cl gc true key) := by
+  cases gc
+  · simp only [getPrefixIR, respOf, Bool.false_eq_true, ↓reduceIte]
+    cases hc : cl true key with
+    | error => simp [getRawPrefix, getPrefix]
+    | kvs l =>
+      rw [hc] at hwf
+      simp only [getRawPrefix, Bool.false_eq_true, ↓reduceIte, getPrefix]
+      rw [getPrefix_regenerated_from_source_loop cl false key _ false l [] hwf (by simp)]
+      simp
+  · simp [getPrefixIR, respOf, getRawPrefix, getPrefix]
+
 end EgVerif.Syncer
